@@ -103,17 +103,46 @@ func runC15(r *Report, tier string) {
 	// label loop: kept entries have int64 or string labels
 	{
 		var L *loopInfo
+		host := dec
 		for _, l := range findLoops(dec) {
 			if l.kind == "map-range" {
 				L = l
 			}
 		}
+		if L == nil {
+			// the copy loop may live in a helper the decoder calls (and whose error it returns)
+			for _, ci := range callsIn(dec, nil) {
+				g := staticCallee(ci)
+				if g == nil || !P.inPkg(g) || errIndex(g) < 0 {
+					continue
+				}
+				for _, l := range findLoops(g) {
+					if l.kind == "map-range" {
+						if v, ok := ci.(ssa.Value); ok {
+							errT := P.terms.of(v)
+							if g.Signature.Results().Len() > 1 {
+								errT = &Term{Op: "res", S: itoa(int64(errIndex(g))), Args: []*Term{errT}}
+							}
+							okAll := true
+							for _, x := range P.factsOf(dec).exits {
+								if x.kind != exitFailure && !exitFacts(P, x).has(okFact(errT)) {
+									okAll = false
+								}
+							}
+							if okAll {
+								L, host = l, g
+							}
+						}
+					}
+				}
+			}
+		}
 		o := r.ob("R15.1", shortFn(dec)+":labels", dec, nil, "every remaining parameter label is int64 or string")
 		if L == nil {
-			o.fail("no range over the remaining parameters")
+			o.fail("no range over the remaining parameters (in the decoder or a helper whose success it requires)")
 		} else {
 			why := ""
-			for _, p := range P.enumPaths(dec, L.body, func(b *ssa.BasicBlock) bool { return b == L.header }, false) {
+			for _, p := range P.enumPaths(host, L.body, func(b *ssa.BasicBlock) bool { return b == L.header }, false) {
 				if p.ret != nil {
 					continue
 				}
